@@ -170,6 +170,7 @@ func VerifH_C16_slice_write() {
 		var v Value
 		var err error
 		kind, _ := verifCatch(func() {
+			vm.Run("try { Object.defineProperty(sl, '0', {get: function () { return 1 }}) } catch (e) {} try { Object.defineProperty(sl, 'length', {set: function () {}}) } catch (e) {} try { Object.defineProperty(ar, '1', {get: function () {}}) } catch (e) {} try { sl.length = {valueOf: function () { throw x }} } catch (e) {}")
 			v, err = vm.Run("sl.tag = x; [delete sl.tag, 'tag' in sl, delete sl.nope, delete ar.nope, delete sl[i], sl.length, delete sl.length, delete ar[0]].join()")
 		})
 		verifCover("reached")
